@@ -25,6 +25,10 @@ def _task(prop: str, seed: int, explicit_plan, keep_hist: bool):
     from . import cases
 
     faulthandler.dump_traceback_later(CASE_TIMEOUT_S, exit=True)
+    marker = os.environ.get("MDPSIM_TEST_KILL_ONCE")  # self-test of the recovery path only
+    if marker and not os.path.exists(marker):
+        open(marker, "w").close()
+        os._exit(3)
     try:
         return cases.run_case(prop, seed, explicit_plan, keep_hist)
     finally:
@@ -81,8 +85,21 @@ class Pools:
             old = self.pools.pop(devices, None)
             if old is not None:
                 old.shutdown(wait=False, cancel_futures=True)
-            self.broken = getattr(self, "broken", 0) + 1
+            self.replaced = getattr(self, "replaced", 0) + 1
             return self.get(devices).submit(fn, *args)
+
+    def call_custom(self, devices: int, fn_path: str, *args, timeout: float = 900):
+        """submit_custom + result, re-executed once if the worker died."""
+        try:
+            return self.submit_custom(devices, fn_path, *args).result(timeout=timeout)
+        except BaseException as e:  # noqa: BLE001
+            if "BrokenProcessPool" not in type(e).__name__ and "terminated abruptly" not in str(e):
+                raise
+            old = self.pools.pop(devices, None)
+            if old is not None:
+                old.shutdown(wait=False, cancel_futures=True)
+            self.retried = getattr(self, "retried", 0) + 1
+            return self.submit_custom(devices, fn_path, *args).result(timeout=timeout)
 
     def submit_case(self, devices: int, prop: str, seed: int, explicit_plan=None, keep_hist=False):
         return self._submit(devices, _task, prop, seed, explicit_plan, keep_hist)
@@ -96,7 +113,7 @@ class Pools:
         self.pools.clear()
 
 
-def run_cases(pools: Pools, prop: str, items: list[tuple[int, int, int]], deadline: float | None = None, on_result=None):
+def run_cases(pools: Pools, prop: str, items: list[tuple[int, int, int]], deadline: float | None = None, on_result=None, _retry: bool = True):
     """items: (index, seed, devices).  Returns list of results (index order).  A broken pool or
     a timeout yields a harness_error result for the affected items - never a silent pass."""
     chunk = int(os.environ.get("MDPSIM_CHUNK", "1500"))
@@ -138,4 +155,17 @@ def run_cases(pools: Pools, prop: str, items: list[tuple[int, int, int]], deadli
             out[idx] = r
             if on_result:
                 on_result(r)
+    # a worker that died (native crash of XLA under overload, stall watchdog) takes its whole pool
+    # with it: every case that was in that pool is re-executed once in a fresh pool - only a
+    # second failure is reported as a harness error
+    if _retry:
+        lost = [(idx, r["seed"], r["devices"]) for idx, r in out.items() if r.get("verdict") == "harness_error" and "worker failed" in str(r.get("error"))]
+        if lost and (deadline is None or time.time() < deadline):
+            for d in {d for _, _, d in lost}:
+                old = pools.pools.pop(d, None)
+                if old is not None:
+                    old.shutdown(wait=False, cancel_futures=True)
+            pools.retried = getattr(pools, "retried", 0) + len(lost)
+            for r in run_cases(pools, prop, lost, deadline=deadline, on_result=on_result, _retry=False):
+                out[r["index"]] = r
     return [out[i] for i in sorted(out)]
